@@ -128,6 +128,9 @@ class Judge:
         self.B = dict(ts2det=False, ts2burst=False, idle=False)
         self.hist = deque(maxlen=4)           # (sig, reset, link_ready) of previous cycles, newest last
         self.last_reset = None
+        self.run_start_sig = None
+        self.run_start_cycle = -10
+        self.run_start_next = None
         self.ctx = "polling"
         self.quiet_kind = "rxdetect"
         self.detect_kind = "rxdetect"
@@ -157,6 +160,8 @@ class Judge:
         res.event("cycles_judged")
         if self.last_reset is not None and self.last_reset["cycle"] == k - 1:
             self.last_reset["next_sig"] = sig
+        if self.run_start_cycle == k - 1:
+            self.run_start_next = sig
 
         if sig != self.sig:
             self._close_interval(k)
@@ -231,8 +236,10 @@ class Judge:
                     res.bin("reset_in_" + sig)
                     if sig in ("TS1", "TS2", "IDLE"):
                         res.bin("reset_in_%s_%s" % (sig, self.ctx))
+            if not prev_reset:
+                self.run_start_sig, self.run_start_cycle, self.run_start_next = sig, k, None
             self.last_reset = {"cycle": k, "sig": sig, "next_sig": None, "burst": i["ts_burst_complete"],
-                               "first": not prev_reset}
+                               "first": not prev_reset, "start_sig": self.run_start_sig}
             for m in self.A:                 # ... but milestones of the reset cycle itself count in favour of the DUT
                 self.A[m] = m in now
             self.ts2_since_reset_before_ts1 = False
@@ -359,13 +366,17 @@ class Judge:
             if lr is not None and all(self.everA[m] for m in missA):
                 # the milestones were reached before the last reset: the reset did not restart the training
                 honoured = lr["next_sig"] == "OFF"
-                detail += "; last reset cycle in signature %s, next signature %s, ts_burst_complete=%d" % (
-                    lr["sig"], lr["next_sig"], lr["burst"])
+                detail += "; last reset cycle in signature %s (reset began in %s), next signature %s, ts_burst_complete=%d" % (
+                    lr["sig"], lr["start_sig"], lr["next_sig"], lr["burst"])
                 if honoured or "detect" not in missA:
                     pass                 # an ignored reset always loses the partner detection; anything else is something new
-                elif lr["sig"] == "LFPS":
+                elif lr["sig"] == "LFPS" and lr["start_sig"] in ("LFPS", "DETECT", "QUIET"):
+                    # the reset began in a signature whose states never look at in_usb_reset and ended in Polling.LFPS
                     mech = "ready_after_reset_ignored_in_polling_lfps"
                 elif lr["next_sig"] != lr["sig"] or (lr["sig"] == "TS2" and lr["burst"]):
+                    mech = "ready_after_reset_overridden_by_same_cycle_transition"
+                elif (lr["sig"] == "LFPS" and lr["start_sig"] in ("TS1", "TS2") and self.run_start_next == "DETECT"):
+                    # the first reset cycle coincided with a time-out into receiver detection, which never looks at the reset
                     mech = "ready_after_reset_overridden_by_same_cycle_transition"
                 else:
                     mech = "ready_without_retraining_after_reset"
@@ -461,6 +472,7 @@ class Partner:
         self.watchdog = None
         self.hot_level_until = None
         self.allow_lfps_timeout = True
+        self.early_ts2 = False
         # per-case noise
         self.noise = {}
         cands = ["idle_handshake_complete", "ts_burst_complete", "ts2_detected", "ts1_detected", "lfps_polling_detected",
@@ -564,6 +576,10 @@ class Partner:
                 dwell = t0
             if r.random() < 0.5:
                 self.pulse("tseq_detected", r.randint(0, 50), 1, r.randint(4, 30), 1000)
+            self.early_ts2 = r.random() < 0.2
+            if self.early_ts2:
+                # a partner that is ahead: its TS2s are seen during our TSEQ phase -- and possibly never again
+                self.pulse("ts2_detected", r.randint(0, 50), self.width(), r.randint(3, 30), r.randint(1, 20))
         elif sig == "TS1":
             dwell = T12 if silent else 60
             kind = "both"
@@ -571,6 +587,8 @@ class Partner:
                 kind = r.choice(["none", "none", "no_burst", "no_det"])
             elif partial:
                 kind = r.choice(["ts1_only", "ts1_only", "det_before_burst"])
+            elif self.early_ts2 and r.random() < 0.6:
+                kind = "ts1_only"
             what = kind
             bper = r.randint(4, 40)
             b0 = r.randint(1, 60)
@@ -593,6 +611,10 @@ class Partner:
             kind = "both"
             if silent:
                 kind = r.choice(["none", "no_burst", "no_ts2", "no_ts2"])
+            elif self.early_ts2 and not hot and r.random() < 0.6:
+                kind = "no_ts2"
+            if not hot:
+                self.early_ts2 = False
             what = ("hot:" if hot else "") + kind
             if kind in ("both", "no_ts2"):
                 b0 = r.randint(1, 50)
